@@ -202,7 +202,7 @@ def pollAll (res : Nat → WaitRes) : List Nat → List Nat × List (Nat × Nat)
 
 /-- second loop (153-175) for handles that have an exit_cb -/
 def report (pending : List (Nat × Nat)) : List ExitEv :=
-  pending.map fun (c, st) => ⟨c, (decode st).1, (decode st).2⟩
+  pending.map fun x => ⟨x.1, (decode x.2).1, (decode x.2).2⟩
 
 def waitChildren (res : Nat → WaitRes) (tracked : List Nat) : List Nat × List ExitEv :=
   let p := pollAll res tracked
@@ -246,6 +246,8 @@ structure PS where
   nspawned : Nat := 0
   tracked : List Nat := []
   log : List Log := []                     -- newest last
+  exits : List (Nat × Nat) := []           -- ghost: what really happened, (child, status word)
+  okIds : List Nat := []                   -- ghost: children whose spawn succeeded
 
 inductive Op where
   | spawnOk                    -- fork+exec succeeded: child `nspawned`, handle activated (1053-1074)
@@ -263,24 +265,33 @@ def kernWait (s : PS) (id : Nat) : WaitRes :=
 def stepP (s : PS) : Op → PS
   | .spawnOk =>
     { s with kern := fun i => if i = s.nspawned then .running else s.kern i,
-             nspawned := s.nspawned + 1, tracked := s.tracked ++ [s.nspawned] }
+             nspawned := s.nspawned + 1, tracked := s.tracked ++ [s.nspawned],
+             okIds := s.okIds ++ [s.nspawned] }
   | .spawnFail =>
     -- the child wrote errno and `_exit(127)`ed; the parent's blocking waitpid (962) reaped it
     { s with nspawned := s.nspawned + 1 }
   | .childExit id st =>
-    if s.kern id = .running then { s with kern := fun i => if i = id then .zombie st else s.kern i } else s
+    if s.kern id = .running then
+      { s with kern := fun i => if i = id then .zombie st else s.kern i, exits := s.exits ++ [(id, st)] }
+    else s
   | .sigchld =>
     let p := pollAll (kernWait s) s.tracked
     { s with kern := fun i => if p.2.any (·.1 == i) then .gone else s.kern i,
              tracked := p.1,
-             log := s.log ++ p.2.map (fun (c, st) => .waited c st) ++ (report p.2).map .cb }
+             log := s.log ++ p.2.map (fun x => .waited x.1 x.2) ++ (report p.2).map .cb }
   | .closeHandle id => { s with tracked := s.tracked.filter (· ≠ id) }
 
 def runP (s : PS) (ops : List Op) : PS := ops.foldl stepP s
 
-def cbCount (l : List Log) (id : Nat) : Nat :=
-  (l.filter fun | .cb e => e.id == id | _ => false).length
-def waitCount (l : List Log) (id : Nat) : Nat :=
-  (l.filter fun | .waited c _ => c == id | _ => false).length
+def Log.isCb (id : Nat) : Log → Bool
+  | .cb e => e.id == id
+  | _ => false
+def Log.isWaited (id : Nat) : Log → Bool
+  | .waited c _ => c == id
+  | _ => false
+/-- number of exit_cb calls for child `id` -/
+def cbCount (l : List Log) (id : Nat) : Nat := (l.filter (Log.isCb id)).length
+/-- number of times waitpid returned child `id` -/
+def waitCount (l : List Log) (id : Nat) : Nat := (l.filter (Log.isWaited id)).length
 
 end UvModel.ProcFd
